@@ -1,5 +1,6 @@
 import WhVerif.Util.Proto
 import WhVerif.Model.C04Json
+import WhVerif.Model.C04File
 namespace WhVerif.Driver.C04
 open Lean WhVerif.Proto WhVerif.C04 WhVerif.C04.Json
 
@@ -13,9 +14,43 @@ def ofHLine (l : HLine) : Json :=
   Json.mkObj [("key", Json.str l.key), ("id", match l.id with | some s => Json.str s | none => Json.null),
     ("number", Json.str l.number), ("type", Json.str l.typ), ("text", Json.str l.text)]
 
-def reachFlags (cfg : Cfg) : Option Nat → List Record → List Bool
-  | _, [] => []
-  | prev, r :: rs => reaches cfg prev r :: reachFlags cfg (writeRecord cfg prev r).prev rs
+def frec? (j : Json) : Option FRec := do
+  some ⟨← getStr? j "chrom", ((getObj? j "infoKeys").bind strList?).getD [], ← record? (← getObj? j "record")⟩
+
+/-- a record of which only CHROM matters (streaming ops) -/
+def chromOnly (c : String) : FRec := ⟨c, [], ⟨"", 0, "", [], [], []⟩⟩
+
+def samplePhasing? (j : Json) : Option (String × SamplePhasing) := do
+  some (← getStr? j "name", ⟨← (← getList? j "sr0").mapM pairNatInt?, ← (← getList? j "sr1").mapM pairNatInt?,
+        ← (← getList? j "comps").mapM pairNat?⟩)
+
+/-- `Phasing` from the per-table lists of the trace -/
+def phasingOf (blocks : List (List (String × SamplePhasing))) : Phasing := fun k s =>
+  match (blocks.getD k []).find? (fun p => p.1 == s) with
+  | some p => p.2
+  | none => ⟨[], [], []⟩
+
+def fileCfg? (j : Json) : Option FileCfg := do
+  some ⟨← tag? (← getStr? j "tag"), ← getBool? j "onlySnvs", ← strList? (← getObj? j "samples"),
+        ← strList? (← getObj? j "order"), ← strList? (← getObj? j "chromosomes")⟩
+
+def ofIterRes : IterRes → Json
+  | .ok => Json.str "ok"
+  | .assertChrom => Json.str "assert-chrom"
+  | .assertFirst => Json.str "assert-first"
+
+def ofReadErr : ReadErr → Json
+  | .notSorted => Json.str "VcfNotSortedError"
+  | .ploidy => Json.str "PloidyError"
+  | .runtime => Json.str "RuntimeError"
+
+def ofOut (o : Out) : Json :=
+  Json.mkObj [("columns", ofList Json.str (renderColumns o.record)), ("record", ofRecord o.record),
+              ("changes", ofList ofChange o.changes), ("err", Json.bool o.err)]
+
+def ofReader : Except ReadErr (List (List Bool)) → Json
+  | .ok fs => Json.mkObj [("rows", ofList (ofList Json.bool) fs)]
+  | .error e => Json.mkObj [("error", ofReadErr e)]
 
 /-- ops of property C04 are named `c04.<name>`; return `none` for ops that are not ours -/
 def handle (op : String) (j : Json) : Option Json :=
@@ -36,5 +71,50 @@ def handle (op : String) (j : Json) : Option Json :=
       | some h' => some (Json.mkObj [("header", ofList ofHLine h')])
       | none => some (Json.mkObj [("error", Json.str "VcfError")])
     | _, _, _, _, _, _ => some badInput
+  else if op == "c04.file" then
+    -- the whole file: {fc, phasing (per table), records, header, commandLine}
+    --   -> {blocks | error, reached (writer flags per table), reader (rows per table | error), header | headerError}
+    match (getObj? j "fc").bind fileCfg?, (getList? j "phasing").bind (·.mapM fun b => (asArr? b).bind (·.mapM samplePhasing?)),
+          (getList? j "records").bind (·.mapM frec?), (getList? j "header").bind (·.mapM hline?), getBool? j "commandLine" with
+    | some fc, some pb, some recs, some h, some cl =>
+      let ph := phasingOf pb
+      let groups := groupChrom recs
+      let reached := (List.range groups.length).zip groups |>.map fun (k, cg) =>
+        reachFlags (blockCfg fc ph k cg.1) none (cg.2.map (·.record))
+      let hdr := match fileHeader fc.tag cl h recs with
+        | some h' => ("header", ofList ofHLine h')
+        | none => ("headerError", Json.str "VcfError")
+      some (Json.mkObj [
+        (match phaseFile fc ph recs with
+         | some blocks => ("blocks", ofList (ofList ofOut) blocks)
+         | none => ("error", Json.str "AssertionError")),
+        ("tables", ofList (fun cg => Json.mkObj [("chrom", Json.str cg.1), ("n", ofNat cg.2.length)]) groups),
+        ("reached", ofList (ofList Json.bool) reached),
+        ("reader", ofReader (readFile fc.onlySnvs recs)), hdr])
+    | _, _, _, _, _ => some badInput
+  else if op == "c04.reader" then
+    match getBool? j "onlySnvs", (getList? j "records").bind (·.mapM frec?) with
+    | some os, some recs =>
+      some (Json.mkObj [("reader", ofReader (readFile os recs)),
+        ("tables", ofList (fun cg => Json.mkObj [("chrom", Json.str cg.1), ("n", ofNat cg.2.length)]) (groupChrom recs))])
+    | _, _ => some badInput
+  else if op == "c04.stream" then
+    -- arbitrary sequence of write(chrom, {}, {}) calls on a file with the given CHROM column
+    match (getObj? j "chroms").bind strList?, (getObj? j "calls").bind strList? with
+    | some cs, some calls =>
+      let cfg : Cfg := ⟨.PS, false, false, true, [], []⟩
+      some (ofList (fun (p : IterRes × Nat) => Json.arr #[ofIterRes p.1, ofNat p.2]) (streamCalls cfg calls ⟨none, cs.map chromOnly⟩))
+    | _, _ => some badInput
+  else if op == "c04.select" then
+    match (getObj? j "header").bind strList?, (getObj? j "sampleOpt").bind strList? with
+    | some hs, some so =>
+      let ped := match j.getObjVal? "ped" with
+        | .ok Json.null => none
+        | .ok v => strList? v
+        | _ => none
+      match selectSamples hs so ped with
+      | .ok l => some (Json.mkObj [("samples", ofList Json.str l)])
+      | .error (.unknownSample x) => some (Json.mkObj [("error", Json.str x)])
+    | _, _ => some badInput
   else none
 end WhVerif.Driver.C04
